@@ -138,6 +138,43 @@ def run(prog, R):
     # ---------------------------------------------------------------- BUF-1, BUF-2, LOOP-1
     if len(refills) == 1:
         buf_rules(prog, R, refills[0])
+        fill_count_rules(prog, R, refills[0])
+
+
+def fill_count_rules(prog, R, refill):
+    """FILL-6 (added after the mutation survey: `fill_buf()? > 1`, `n == 1` pass the test suite)"""
+    R.rule('FILL-6', 'the number of bytes returned by the refill is only ever tested for "nothing read" (== 0 / > 0): a test against any other constant takes a refill that delivered few bytes (the last byte of the input, a buffer with one free byte) for the end of the input')
+    n = 0
+    for b in scope_bodies(prog):
+        if not any(prog.local_callee_body(t.callee) is refill for _, t in b.calls()):
+            continue
+        du = DefUse(b)
+        n = 0
+        for x in sorted(b.cfg.reachable):
+            for st in b.blocks[x].stmts:
+                if st.k != 'assign' or st.rv.k != 'bin' or st.rv.j['op'] not in ('Lt', 'Le', 'Gt', 'Ge', 'Eq', 'Ne'):
+                    continue
+                sides = []
+                for o in st.rv.ops:
+                    rs = roots_of(b, o, du)
+                    sides.append(bool(rs) and all(r[0] == 'call' and prog.local_callee_body(r[1].callee) is refill for r in rs))
+                if sides[0] == sides[1]:
+                    continue
+                cv = resolve_const_operand(b, st.rv.ops[1 if sides[0] else 0], du)
+                n += 1
+                if not cv or cv[0] != 'int':
+                    R.add('FILL-6', b, 'count-test#%d' % n, True, site(b, st.line), 'the count is compared with a non-constant (not a threshold test)')
+                    continue
+                c = cv[1]
+                op = st.rv.j['op']
+
+                def truth(cnt):
+                    a, d = (cnt, c) if sides[0] else (c, cnt)
+                    return {'Lt': a < d, 'Le': a <= d, 'Gt': a > d, 'Ge': a >= d, 'Eq': a == d, 'Ne': a != d}[op]
+                ok = truth(0) != truth(1) and truth(1) == truth(2) == truth(1 << 40)
+                R.add('FILL-6', b, 'count-test#%d' % n, ok, site(b, st.line),
+                      'the refill count is tested with %s against %d: distinguishes exactly "0 bytes" from "some bytes": %s' % (op, c, ok))
+    R.floor('FILL-6', 2)
 
 
 def fill_rules(prog, R, f):
